@@ -520,6 +520,10 @@ impl Ctx {
             }
             return out;
         }
+        // VERIF_NO_REPLAY=1 skips the committed regression inputs (used to measure what the generators find alone)
+        if std::env::var("VERIF_NO_REPLAY").is_ok() {
+            return out;
+        }
         let dir = Path::new(VERIF_DIR).join("replays").join(&self.id);
         if let Ok(rd) = std::fs::read_dir(&dir) {
             let all: Vec<PathBuf> = rd.filter_map(|e| e.ok()).map(|e| e.path()).collect();
